@@ -26,6 +26,12 @@ pub enum StdoutKind {
     Full,
     /// a pipe whose read end is already closed: EPIPE
     Epipe,
+    /// a non-blocking 4 KiB pipe that nobody reads while the tool runs: a large `write` is accepted
+    /// only in part (short write), the next one fails with EAGAIN
+    NonBlock,
+    /// a regular file under a file-size limit (RLIMIT_FSIZE, SIGXFSZ ignored): the write that crosses
+    /// the limit is short, the next one fails with EFBIG
+    FileLimit,
 }
 
 #[derive(Clone, Debug, Serialize, Deserialize)]
@@ -56,6 +62,9 @@ pub struct Case {
     /// inputs, bit 2 = `--load-path` spelled out instead of `-I`
     #[serde(default)]
     pub argv_form: u8,
+    /// for `FileLimit`: the size limit in bytes
+    #[serde(default)]
+    pub stdout_limit: u64,
 }
 
 fn cli_bin() -> PathBuf {
@@ -180,6 +189,8 @@ fn run_cli(case: &Case, dir: &Path) -> CliOut {
     let mut cmd = Command::new(cli_bin());
     cmd.args(argv(case)).current_dir(dir).env_clear().stdin(Stdio::null()).stderr(Stdio::piped());
     let mut reader: Option<std::thread::JoinHandle<Vec<u8>>> = None;
+    // NonBlock: the read end is held open and only drained after the tool has exited
+    let mut held_read_end: Option<fs::File> = None;
     match case.stdout {
         StdoutKind::Normal => {
             cmd.stdout(Stdio::piped());
@@ -187,6 +198,35 @@ fn run_cli(case: &Case, dir: &Path) -> CliOut {
         StdoutKind::Full => {
             let f = fs::OpenOptions::new().write(true).open("/dev/full").expect("/dev/full");
             cmd.stdout(Stdio::from(f));
+        }
+        StdoutKind::FileLimit => {
+            use std::os::unix::process::CommandExt;
+            let path = dir.join(".stdout-file");
+            let f = fs::File::create(&path).expect("stdout file");
+            cmd.stdout(Stdio::from(f));
+            let limit = case.stdout_limit.max(1);
+            // SAFETY: only async-signal-safe calls between fork and exec.
+            unsafe {
+                cmd.pre_exec(move || {
+                    libc::signal(libc::SIGXFSZ, libc::SIG_IGN);
+                    let rl = libc::rlimit { rlim_cur: limit, rlim_max: limit };
+                    libc::setrlimit(libc::RLIMIT_FSIZE, &rl);
+                    Ok(())
+                });
+            }
+        }
+        StdoutKind::NonBlock => {
+            let mut fds = [0i32; 2];
+            // SAFETY: plain pipe(2)/fcntl(2); both ends are wrapped in OwnedFd right away.
+            let (r, w) = unsafe {
+                assert_eq!(libc::pipe2(fds.as_mut_ptr(), libc::O_CLOEXEC), 0);
+                libc::fcntl(fds[1], libc::F_SETPIPE_SZ, 4096);
+                let fl = libc::fcntl(fds[1], libc::F_GETFL);
+                libc::fcntl(fds[1], libc::F_SETFL, fl | libc::O_NONBLOCK);
+                (OwnedFd::from_raw_fd(fds[0]), OwnedFd::from_raw_fd(fds[1]))
+            };
+            held_read_end = Some(fs::File::from(r));
+            cmd.stdout(Stdio::from(w));
         }
         StdoutKind::Slow | StdoutKind::Epipe => {
             let mut fds = [0i32; 2];
@@ -263,6 +303,13 @@ fn run_cli(case: &Case, dir: &Path) -> CliOut {
     }
     let status = child.wait().expect("wait cli");
     done.store(true, std::sync::atomic::Ordering::Relaxed);
+    if let Some(mut r) = held_read_end.take() {
+        // every write end is closed by now: this reads what the pipe buffered, then EOF
+        let _ = r.read_to_end(&mut stdout);
+    }
+    if case.stdout == StdoutKind::FileLimit {
+        stdout = fs::read(dir.join(".stdout-file")).unwrap_or_default();
+    }
     CliOut {
         code: status.code(),
         signal: status.signal(),
@@ -343,6 +390,29 @@ pub fn judge(case: &Case, tag: &str, stats: &mut Stats) -> (Vec<(String, String,
             }
             if !all_ok && status_ok {
                 fail("success_status_but_input_fails", format!("an input fails through the library ({}) but the exit status is 0", reference.last().and_then(|r| r.as_ref().err()).map_or("", |e| e.lines().next().unwrap_or(""))));
+            }
+        }
+        StdoutKind::NonBlock | StdoutKind::FileLimit => {
+            // small outputs fit; larger ones meet a short write and then an error
+            if delivered_all {
+                stats.inc("probe:stdout_limit_not_reached");
+                if all_ok && !status_ok {
+                    fail("failure_status_but_all_compile", format!("all css reached stdout but the exit status is {:?}; stderr: {}", out.code, stderr_text.chars().take(200).collect::<String>()));
+                }
+            } else {
+                stats.inc("probe:stdout_short_write_hit");
+                if status_ok {
+                    fail(
+                        "success_status_but_css_not_written",
+                        format!("stdout accepted only {} of {} bytes ({:?}) but the exit status is 0", out.stdout.len(), expected.len(), case.stdout),
+                    );
+                }
+                if !expected.starts_with(&out.stdout) {
+                    fail("stdout_not_a_prefix", "bytes reached stdout that are not a prefix of the expected css".into());
+                }
+            }
+            if !all_ok && status_ok {
+                fail("success_status_but_input_fails", "an input fails through the library but the exit status is 0".into());
             }
         }
         StdoutKind::Full | StdoutKind::Epipe => {
@@ -532,6 +602,14 @@ pub fn gen_case(rng: &mut Rng) -> Case {
                         forbidden.push(format!("dep{k}-from-inputdir-lp"));
                         decoy = true;
                     }
+                    // `<input dir>/<input dir>`: where a dependency would be looked for if the root were named
+                    // by its full path while the loader's base already is its directory
+                    if in_subdir && rng.chance(1, 3) {
+                        let d = dir.trim_start_matches("./");
+                        files.insert(join(&join(dir, d), &fname), format!("d{k} {{ from: dep{k}-from-nested; }}\n"));
+                        forbidden.push(format!("dep{k}-from-nested"));
+                        decoy = true;
+                    }
                     if decoy && !in_dir && !in_lp {
                         unres = true;
                     }
@@ -599,12 +677,15 @@ pub fn gen_case(rng: &mut Rng) -> Case {
         style_short_flag: rng.chance(1, 2),
         precision: if rng.chance(1, 3) { None } else { Some(rng.usize(13)) },
         load_path,
-        stdout: match rng.below(8) {
+        stdout: match rng.below(10) {
             0 | 1 => StdoutKind::Full,
             2 | 3 => StdoutKind::Epipe,
             4 => StdoutKind::Slow,
+            5 => StdoutKind::NonBlock,
+            6 => StdoutKind::FileLimit,
             _ => StdoutKind::Normal,
         },
+        stdout_limit: *rng.pick(&[1u64, 100, 4096, 40_960, 1_000_000]),
         expect_dep_from,
         forbidden,
         unresolvable,
